@@ -79,7 +79,7 @@ def case_array(c):
                 V('small_request_accepted', 'request of %d samples accepted with max delay %d' % (k, mx))
             except Exception:
                 pass
-    clock_ops = [None, ('set', 50.0), ('reset',), ('add', 3.0)]
+    clock_ops = [None, ('set', 50.0), ('reset',), ('add', 3.0), ('set0',), ('bgupd',)]
     for noise_bg in (False, True):
         twin = None
         if noise_bg:
@@ -99,17 +99,34 @@ def case_array(c):
                 ok = True
                 for j, req in enumerate(comp):
                     if cut is not None and j == cut:
-                        if op[0] == 'set':
-                            arr.set_time(op[1]); clock = op[1]
-                        elif op[0] == 'reset':
-                            arr.reset_start()
-                        elif op[0] == 'add':
-                            arr.add_time(op[1]); clock += op[1]
-                        t_restart = clock
-                        k_local = 0
-                        pos0 = pos
-                        start = True
-                        for a in arr.antennas:
+                        if op[0] == 'bgupd':
+                            # re-estimating the background's noise level in the middle of an observation is not a clock
+                            # operation: the timeline and the alignment simply continue
+                            if noise_bg:
+                                continue_flag = True      # (noise draws consumed by the estimate: alignment not judged)
+                                break
+                            for bgs in arr.bg_streams:
+                                bgs.update_noise(stats_calc_num_samples=5)
+                            if arr.t_start != clock or any(bgs.start_obs for bgs in arr.bg_streams):
+                                V('update_noise_clock', 'update_noise on the background moved the array clock / start flag',
+                                  dict(composition=list(comp), cut=cut, op=list(op)), site='BackgroundDataStream.update_noise')
+                                ok = False
+                                break
+                        else:
+                            if op[0] == 'set':
+                                arr.set_time(op[1]); clock = op[1]
+                            elif op[0] == 'set0':
+                                # back to exactly the instant the array was created with / last set to
+                                arr.set_time(float(c['t_start'])); clock = float(c['t_start'])
+                            elif op[0] == 'reset':
+                                arr.reset_start()
+                            elif op[0] == 'add':
+                                arr.add_time(op[1]); clock += op[1]
+                            t_restart = clock
+                            k_local = 0
+                            pos0 = pos
+                            start = True
+                        for a in (arr.antennas if op[0] != 'bgupd' else []):
                             if any(x is not None and len(x) for x in a.bg_cache):
                                 V('cache_not_cleared', 'carried-over background survives %s' % (op,), dict(composition=list(comp), cut=cut, op=list(op)),
                                   site='MultiAntennaArray.set_time')
